@@ -793,8 +793,11 @@ func addFilter(rule *ruleData, lhs, comparator, rhs string) error {
 }
 
 func getUID(uid string) (uint32, error) {
-	if uid == "unset" || uid == "-1" {
+	if uid == "unset" {
 		return 4294967295, nil
+	}
+	if v, err := strconv.ParseInt(uid, 10, 32); err == nil && v < 0 {
+		return uint32(v), nil
 	}
 
 	v, err := strconv.ParseUint(uid, 10, 32)
@@ -818,6 +821,12 @@ func getUID(uid string) (uint32, error) {
 }
 
 func getGID(gid string) (uint32, error) {
+	if gid == "unset" {
+		return 4294967295, nil
+	}
+	if v, err := strconv.ParseInt(gid, 10, 32); err == nil && v < 0 {
+		return uint32(v), nil
+	}
 	v, err := strconv.ParseUint(gid, 10, 32)
 	if err != nil {
 		if !errors.Is(err, strconv.ErrSyntax) {
